@@ -349,6 +349,9 @@ func (ex *Exec) execLoopInv(s ast.Stmt, cond ast.Expr, body *ast.BlockStmt, post
 			ex.assert(s2, kind+"."+itoa(ex.prog.LoopOrd[s])+"."+itoa(i), g, body.Lbrace, "invariant: "+invs[i].Text)
 		}
 	}
+	saveEntry := ex.loopEntry
+	ex.loopEntry = st.fork(st.pc)
+	defer func() { ex.loopEntry = saveEntry }()
 	evalInv(st, "loop.entry")
 	// havoc assigned variables
 	assigned := map[types.Object]bool{}
@@ -356,14 +359,14 @@ func (ex *Exec) execLoopInv(s ast.Stmt, cond ast.Expr, body *ast.BlockStmt, post
 		switch a := n.(type) {
 		case *ast.AssignStmt:
 			for _, l := range a.Lhs {
-				if id := rootIdent(l); id != nil {
+				if id := ex.assignedVar(l); id != nil {
 					if o := ex.objOf(id); o != nil {
 						assigned[o] = true
 					}
 				}
 			}
 		case *ast.IncDecStmt:
-			if id := rootIdent(a.X); id != nil {
+			if id := ex.assignedVar(a.X); id != nil {
 				if o := ex.objOf(id); o != nil {
 					assigned[o] = true
 				}
@@ -376,12 +379,12 @@ func (ex *Exec) execLoopInv(s ast.Stmt, cond ast.Expr, body *ast.BlockStmt, post
 			switch a := n.(type) {
 			case *ast.AssignStmt:
 				for _, l := range a.Lhs {
-					if id := rootIdent(l); id != nil {
+					if id := ex.assignedVar(l); id != nil {
 						assigned[ex.objOf(id)] = true
 					}
 				}
 			case *ast.IncDecStmt:
-				if id := rootIdent(a.X); id != nil {
+				if id := ex.assignedVar(a.X); id != nil {
 					assigned[ex.objOf(id)] = true
 				}
 			}
@@ -697,4 +700,29 @@ func (ex *Exec) instantiateMarks(t Value, entry Value, typ types.Type, prefix st
 		}
 	}
 	return entry
+}
+
+// assignedVar: the variable whose own storage an assignment to e changes (nil when the store
+// goes through a pointer, slice or map - those targets are found by the dry run).
+func (ex *Exec) assignedVar(e ast.Expr) *ast.Ident {
+	for {
+		switch x := e.(type) {
+		case *ast.Ident:
+			return x
+		case *ast.ParenExpr:
+			e = x.X
+		case *ast.SelectorExpr:
+			if _, isPtr := ex.typeOf(x.X).Underlying().(*types.Pointer); isPtr {
+				return nil
+			}
+			e = x.X
+		case *ast.IndexExpr:
+			if _, isArr := ex.typeOf(x.X).Underlying().(*types.Array); !isArr {
+				return nil
+			}
+			e = x.X
+		default:
+			return nil
+		}
+	}
 }
